@@ -240,7 +240,25 @@ func suiteC05(c *Ctx) []Suite {
 				badLit{"A", "128", "code above 127"}, badLit{"A", "0x80", "code above 127"}, badLit{"A", "-1", "negative code"},
 				badLit{"A", `"é"`, "non-ASCII"}, badLit{"A", "\"\xff\"", "invalid UTF-8"}, badLit{"A", "1.5", "fraction code"}, badLit{"A", "T", "boolean in ASCII"},
 				badLit{"A", "99999999999999999999", "huge code"},
+				badLit{"A", "255", "code above 127"}, badLit{"A", "256", "code above 255"}, badLit{"A", "321", "code above 255"}, badLit{"A", "0x131", "code above 255"},
+				badLit{"A", "0X232", "code above 255"}, badLit{"A", "65601", "code above 65535"}, badLit{"A", "4294967361", "code above 2^32"}, badLit{"A", "0b100000000", "code above 255"},
+				badLit{"A", "18446744073709551681", "code above 2^64"}, badLit{"A", "-191", "negative code"}, badLit{"A", "0o501", "code above 255"},
+				badLit{"B", "257", "above range"}, badLit{"B", "511", "above range"}, badLit{"B", "0x141", "above range"}, badLit{"B", "65537", "above range"}, badLit{"B", "4294967297", "above range"},
+				badLit{"U1", "257", "above range"}, badLit{"U1", "0x101", "above range"}, badLit{"U2", "65537", "above range"}, badLit{"U4", "4294967297", "above range"}, badLit{"U8", "18446744073709551617", "above range"},
+				badLit{"I1", "257", "above range"}, badLit{"I1", "-257", "below range"}, badLit{"I2", "65537", "above range"}, badLit{"I4", "4294967297", "above range"}, badLit{"I8", "18446744073709551617", "above range"},
 			)
+			// a character that is no part of any literal spliced into a literal: never dropped
+			for _, x := range []string{"\ufeff", "\u200b", "\u00a0", "\u0085", "\x00", "\u2028", "\u00ad", "\u200d", "\x7f", "\x1b"} {
+				if x[0] >= 0x80 { // 7-bit control characters are legitimate inside a quoted string
+					bads = append(bads, badLit{"A", `"ab` + x + `cd"`, "exotic character inside a string"})
+				}
+				bads = append(bads,
+					badLit{"U2", "12" + x + "34", "exotic character inside a number"},
+					badLit{"F8", "1." + x + "5", "exotic character inside a number"}, badLit{"F4", "1" + x + "e3", "exotic character inside a number"},
+					badLit{"I4", "-" + x + "5", "exotic character inside a number"}, badLit{"B", "0x" + x + "1F", "exotic character inside a number"},
+					badLit{"BOOLEAN", "T" + x, "exotic character after a literal"}, badLit{"U1", x + "7", "exotic character before a number"},
+					badLit{"U1", "va" + x + "r", "exotic character inside a name"})
+			}
 			good := map[string][]string{"I": {"1", "-1", "0x7f"}, "U": {"1", "0", "0x7f"}, "B": {"0b1", "255", "0"}, "BOOLEAN": {"T", "F"}, "F": {"1.5", "-2", "1e3"}, "A": {`"ok"`, "65"}}
 			for _, b := range bads {
 				key := b.ty
@@ -467,6 +485,20 @@ func suiteC08(c *Ctx) []Suite {
 				if i%3 == 0 {
 					toks = mutateTokens(c.R, toks) // invalid messages too
 				}
+				if i%3 == 1 {
+					// invalid messages whose token structure is intact (every layout applies):
+					// one value replaced by a literal no item type accepts, or a size made wrong
+					var cand []int
+					for k, t := range toks {
+						if k > 0 && len(t.Text) > 0 && (t.Text[0] >= '0' && t.Text[0] <= '9' || t.Text[0] == '-' || t.Text == "T" || t.Text == "F") {
+							cand = append(cand, k)
+						}
+					}
+					if len(cand) > 0 {
+						toks = append([]STok{}, toks...)
+						toks[cand[c.R.Intn(len(cand))]] = STok{"1e999", 0, true}
+					}
+				}
 				if i%5 == 0 { // several messages in one text
 					toks = append(toks, msgTokens(c.R, genSMLMsg(c.R, smlTemplate(c.R, 0.2, false)), false)...)
 				}
@@ -476,6 +508,7 @@ func suiteC08(c *Ctx) []Suite {
 					// in a mutated sequence tokens stand where gluing or a case change would alter
 					// the token sequence itself: vary only the separators and comments
 					lay2.Compact, lay2.VaryCase = false, false
+					lay2.SizeWs, lay2.SizeZero = false, false
 				}
 				t2, p2 := lay2.render(toks)
 				r1, r2 := parseSML(t1), parseSML(t2)
@@ -656,6 +689,66 @@ func suiteC15(c *Ctx) []Suite {
 			}
 			return out
 		}},
+		{Name: "size/bound-spellings", Gen: func(c *Ctx) []Case {
+			// bounds are decimal whatever their spelling (leading zeros), and white space or
+			// line breaks (LF, CRLF, lone CR) inside the brackets change nothing
+			var out []Case
+			vals := []int{0, 1, 2, 3, 7, 8, 9, 10, 11}
+			for i := 0; i < c.N(1500); i++ {
+				t := types[c.R.Intn(len(types))]
+				lo, hi := vals[c.R.Intn(len(vals))], vals[c.R.Intn(len(vals))]
+				n := pick(c.R, lo, hi, lo+1, hi+1, lo-1, hi-1, 8, 0)
+				if n < 0 {
+					n = 0
+				}
+				var decl string
+				var okWant bool
+				switch c.R.Intn(4) {
+				case 0:
+					decl, okWant = fmt.Sprintf("[%d]", lo), n == lo
+				case 1:
+					decl, okWant = fmt.Sprintf("[%d..%d]", lo, hi), lo <= n && n <= hi
+				case 2:
+					decl, okWant = fmt.Sprintf("[%d..]", lo), n >= lo
+				default:
+					decl, okWant = fmt.Sprintf("[..%d]", hi), n <= hi
+				}
+				spelled := spellSize(c.R, decl, c.R.Intn(3) > 0, c.R.Intn(2) == 0, c.R.Intn(2) == 0)
+				var body string
+				if t.ty == "A" {
+					if n > 0 {
+						body = ` "` + strings.Repeat("x", n) + `"`
+					}
+				} else {
+					body = strings.Repeat(" "+t.elem, n)
+				}
+				text := fmt.Sprintf("S1F1 H->E\n<L\n  <%s%s%s>\n>\n.", t.ty, spelled, body)
+				res := parseSML(text)
+				cs := Case{Op: smlOp(text), Decisive: true, Nontrivial: true, Tags: []string{fmt.Sprintf("spelled ok:%v", okWant)}}.fields("n err warn")
+				sizeErr := 0
+				for _, e := range res.errs {
+					if strings.Contains(e, "data item size overflow") {
+						sizeErr++
+					}
+				}
+				switch {
+				case res.panicked:
+					cs.Oracle = "panic"
+				case okWant && (len(res.errs) != 0 || len(res.msgs) != 1):
+					cs.Oracle = fmt.Sprintf("%s item with %d elements declared %q (= %s) rejected: %v", t.ty, n, spelled, decl, res.errs)
+				case !okWant && (sizeErr != 1 || len(res.msgs) != 0):
+					cs.Oracle = fmt.Sprintf("%s item with %d elements declared %q (= %s): %d size errors, %d messages", t.ty, n, spelled, decl, sizeErr, len(res.msgs))
+				}
+				out = append(out, cs)
+				// the same spelling on an ASCII variable: the bounds are printed back in plain decimal
+				if i%3 == 0 && !(strings.Contains(decl, "..") && !strings.HasSuffix(decl, "..]") && hi < lo && !strings.HasPrefix(decl, "[..")) {
+					vt := fmt.Sprintf("S1F1 H->E\n<L\n  <A%s name>\n>\n.", spelled)
+					out = append(out, Case{Op: smlOp(vt), Decisive: true, Nontrivial: true, Tags: []string{"spelled-variable"}}.fields("n err warn str"))
+				}
+			}
+			return out
+		}},
+		{Name: "size/ascii-variable-under-ellipsis", Gen: func(c *Ctx) []Case { return ellipsisCases(c, c.N(1500), 3, 3) }},
 		{Name: "size/ascii-variable-bounds", Gen: func(c *Ctx) []Case {
 			var out []Case
 			max := 4
